@@ -762,8 +762,9 @@ func (env *specEnv) call(n *ECall) Val {
 		a, b := env.eval(n.Args[0]), env.eval(n.Args[1])
 		return Val{T: tBool, L: []string{sand(seq(a.L[0], b.L[0]), seq(a.L[1], b.L[1]))}}
 	case "sameslice":
+		// the same slice value: same array, window and capacity
 		a, b := env.eval(n.Args[0]), env.eval(n.Args[1])
-		return Val{T: tBool, L: []string{sand(seq(a.L[0], b.L[0]), seq(a.L[1], b.L[1]), seq(a.L[2], b.L[2]))}}
+		return Val{T: tBool, L: []string{sand(seq(a.L[0], b.L[0]), seq(a.L[1], b.L[1]), seq(a.L[2], b.L[2]), seq(a.L[3], b.L[3]))}}
 	case "base":
 		a := env.eval(n.Args[0])
 		return Val{T: types.NewPointer(types.NewStruct(nil, nil)), L: []string{a.L[0]}}
